@@ -3,6 +3,7 @@ CONSTANTS
   Mode = "spread"
   MaxFiles = 3
   GenKinds = {"use", "forward", "import"}
+  GenPre = {"none"}
   GenWhere = {"root", "sub"}
 INVARIANTS Laws Emit
 CHECK_DEADLOCK FALSE
